@@ -215,6 +215,30 @@ def per_block_output_limit(prog, res):
     res.need(R, 2)
 
 
+def block_api_limit(prog, res):
+    """T10: the block-level API accepts a block when it is not larger than ZSTD_getBlockSize().  The sequence store and the
+    literal buffer of the context are sized for cctx->blockSize (ZSTD_resetCCtx_internal: maxBlockSize, window AND pledged
+    source size): the limit the API answers and enforces must be derived from that field, and ZSTD_compressBlock must reach
+    the compressor only on the edge where the block is within it."""
+    R = "T10.block-api-limit-is-the-buffers-limit"
+    g = prog.fn("ZSTD_getBlockSize_deprecated")
+    rets = [r for b, i, r in g.returns() if r.get("e") is not None]
+    dep = bool(rets) and all(any(y.get("k") == "mem" and y.get("f") == "blockSize" for y in g.walk_deep(r["e"])) for r in rets)
+    res.check(dep, R, "ZSTD_getBlockSize:derived-from-cctx.blockSize", g.loc, "every returned limit depends on cctx->blockSize",
+              "ZSTD_getBlockSize answers a limit that ignores cctx->blockSize: after ZSTD_compressBegin_advanced(pledgedSrcSize=50) it says 131072, "
+              "ZSTD_compressBlock accepts 100000 bytes and ZSTD_storeSeq writes past the literal buffer sized for 50")
+    f = prog.fn("ZSTD_compressBlock_deprecated")
+    cc = f.call_roots("ZSTD_compressContinue_internal")
+    within = guards.rel_edges(f, lambda a: strip_casts(a).get("pi") == 4, ">", lambda b_: any(is_call(y, "ZSTD_getBlockSize_deprecated") for y in f.walk_deep(b_)), truth=False)
+    res.check(bool(cc) and bool(within) and f.must_pass(via_edges=within, targets=cc), R, "ZSTD_compressBlock:size-tested", f.loc,
+              "the compressor is reached only with srcSize <= ZSTD_getBlockSize()", "ZSTD_compressBlock no longer bounds the block by ZSTD_getBlockSize()")
+    r = prog.fn("ZSTD_resetCCtx_internal")
+    sized = [x for b, i, x in r.events(lambda y: y.get("k") == "asg" and strip_casts(y["lhs"]).get("k") == "mem" and strip_casts(y["lhs"]).get("f") == "blockSize")]
+    res.check(len(sized) == 1 and any(is_call(y, "ZSTD_maxNbSeq") for b, i, y in r.events()), R, "resetCCtx:one-block-size", r.loc,
+              "cctx->blockSize is set once, from the value the sequence store is sized with", "cctx->blockSize is set %d times in ZSTD_resetCCtx_internal" % len(sized))
+    res.need(R, 3)
+
+
 def run(tier):
     res = Result("C06", tier)
     tus, info = extract(["compress", "decompress", "common"])
@@ -229,6 +253,7 @@ def run(tier):
     wildcopy_margins(prog, res)
     split_table_bound(prog, res)
     per_block_output_limit(prog, res)
+    block_api_limit(prog, res)
     t4_common.run(prog, res, "T4.error-discipline", ["lib/compress/"], 220)
 
     # the one deliberate swallow: dstSize_tooSmall -> 0 only when the raw block still fits
